@@ -68,7 +68,7 @@ def ok(nontrivial, *labels):
 
 class Sub:
     def __init__(self, name, strategy, func, quick, thorough, budget_quick=60.0, budget_thorough=420.0,
-                 min_nontrivial=None):
+                 min_nontrivial=None, per_shard_min=4):
         self.name = name
         self.strategy = strategy
         self.func = func
@@ -76,6 +76,7 @@ class Sub:
         self.thorough = thorough
         self.budget = {"quick": budget_quick, "thorough": budget_thorough}
         self.min_nontrivial = min_nontrivial
+        self.per_shard_min = per_shard_min
 
 
 # ---------------------------------------------------------------------------------------------
@@ -279,9 +280,12 @@ def _shard(args):
             if only and sub.name not in only:
                 continue
             n_total = n_override if n_override else getattr(sub, tier)
-            n = max(1, -(-n_total // jobs))
-            if n_total < jobs and shard >= n_total:
+            # Hypothesis starts every run with the simplest example: give each shard at least `per_shard_min`
+            # cases so that small case counts are not spent on identical minimal examples
+            nshards = max(1, min(jobs, n_total // max(1, sub.per_shard_min)))
+            if shard >= nshards:
                 continue
+            n = max(1, -(-n_total // nshards))
             run_sub(sub, n, seed * 1000 + shard, sub.budget[tier], stats)
     except HarnessError as e:
         if not stats.harness_errors:
